@@ -2561,6 +2561,11 @@ impl ContinuityStore {
             });
         }
 
+        // The job planned for itself from the stream as it was at spawn time; that plan (not the
+        // scheduler's earlier one) is what the job was announced with, so record and run it.
+        let planned = spawned.planned.clone();
+        let message_count = spawned.message_count;
+
         let decision_id = Uuid::new_v4().to_string();
         let planned_frame = planned
             .iter()
@@ -2580,7 +2585,7 @@ impl ContinuityStore {
                 stride_messages: stride,
                 max_new_checkpoints,
                 block_on_inflight,
-                message_count: cut_points.message_count,
+                message_count,
                 cut_rule_id: cut_rule_id.clone(),
                 planned: planned_frame,
                 job_id: spawned.job_id.clone(),
@@ -2600,7 +2605,7 @@ impl ContinuityStore {
             stride_messages: stride,
             max_new_checkpoints,
             block_on_inflight,
-            message_count: cut_points.message_count,
+            message_count,
             cut_rule_id,
             planned,
             job_id: spawned.job_id,
